@@ -23,7 +23,7 @@ def sh(cmd, cwd=None, env=None):
 def main():
     muts = json.load(open(os.path.join(ROOT, "tools", "handmutants.json")))
     want = set(sys.argv[1:])
-    resf = os.path.join(ROOT, "tools", "handmutants_results.json")
+    resf = os.environ.get("HANDMUT_OUT") or os.path.join(ROOT, "tools", "handmutants_results.json")
     results = {}
     if os.path.exists(resf):
         results = json.load(open(resf))
